@@ -34,6 +34,20 @@ func c14Lists() [][]string {
 	return out // 40 lists
 }
 
+func c14RouteSizes(tier string) []int {
+	var out []int
+	max := 1100
+	if tier == "thorough" {
+		max = 4200
+	}
+	for _, n := range core.Thresholds(max) {
+		if n >= 30 {
+			out = append(out, n)
+		}
+	}
+	return out
+}
+
 func c14Counts(tier string) (random, exhaustive int) {
 	if tier == "thorough" {
 		return 200000, (1 + 40 + 40*40 + 40*40*40 + c14ExhaustivePerCase - 1) / c14ExhaustivePerCase
@@ -47,7 +61,7 @@ func init() {
 		Level: "exploration",
 		Rule: "random histories of 1-8 (quick) / 1-14 (thorough) NYCT feeds over 1-3 trips and a 6-stop alphabet (update lists that shrink from the front, grow at the back, are rerouted mid-trip, jump back, are empty, start at an unknown stop, repeat a stop in 20% of the repeat-enabled histories; trips vanish and reappear; arrival/departure/track independently present; updates with and without vehicle), built as protobuf and parsed by the real ParseRealtime; BuildJournal is run on EVERY prefix of the history and an online checker validates the transition between consecutive prefixes; plus the exhaustive small space: every history of <= 2 (quick) / <= 3 (thorough) feeds whose update lists are all sequences of length <= 3 over {A,B,C} (40 lists: 1640 / 65641 histories); " +
 			"distinct_nontrivial counts distinct (history shape) signatures for random histories and every enumerated history once",
-		Cases: func(tier string) int { a, b := c14Counts(tier); return a + b },
+		Cases: func(tier string) int { a, b := c14Counts(tier); return a + b + 3*len(c14RouteSizes(tier)) },
 		Run:   runC14,
 		Assumptions: []string{
 			"when a stop occurs twice in the previous list, alignment to any occurrence is accepted; when the update's first stop is not in the previous list, or the update is empty, any retained prefix is accepted",
@@ -311,7 +325,18 @@ func c14RunHistory(c *core.Ctx, h *hgen.History, sampleIt bool) bool {
 }
 
 func runC14(c *core.Ctx) {
-	nRandom, _ := c14Counts(c.Tier)
+	nRandom, nExh := c14Counts(c.Tier)
+	if c.Index >= nRandom+nExh {
+		// size sweep: trips whose stop lists have a threshold length (the journal list crosses it while the vehicle
+		// advances several stops per feed, vanishes, reappears further on or jumps back)
+		k := c.Index - nRandom - nExh
+		n := c14RouteSizes(c.Tier)[k/3]
+		h := hgen.Gen(c.R, hgen.Opts{MaxFeeds: 12, MaxTrips: 2, AlwaysAssigned: k%3 != 2, RepeatStops: false, RouteLen: n, ExactFeeds: 6 + k%3*3})
+		c.Shape(fmt.Sprintf("long-route=%d %s", n, h.Sig()))
+		c.Feature("size-sweep:route-length")
+		c14RunHistory(c, h, false)
+		return
+	}
 	if c.Index < nRandom {
 		maxFeeds := 8
 		if c.Thorough() {
